@@ -27,6 +27,7 @@ template <> struct R<External> { static Val f(const External& v) { return refmp:
 template <> struct R<DerivedLate> { static Val f(const DerivedLate& v) { return refmp::mkMap({ { refmp::mkStr("first"), refmp::mkInt(v.first) }, { refmp::mkStr("baseId"), refmp::mkInt(v.baseId) }, { refmp::mkStr("baseName"), refmp::mkStr(v.baseName) }, { refmp::mkStr("last"), refmp::mkStr(v.last) } }); } };
 template <> struct R<TwoBases> { static Val f(const TwoBases& v) { return refmp::mkMap({ { refmp::mkStr("baseId"), refmp::mkInt(v.baseId) }, { refmp::mkStr("baseName"), refmp::mkStr(v.baseName) }, { refmp::mkStr("tag"), refmp::mkInt(v.tag) }, { refmp::mkStr("flag"), refmp::mkBool(v.flag) } }); } };
 template <> struct R<LongKeys> { static Val f(const LongKeys& v) { return refmp::mkMap({ { refmp::mkStr(VF_KEY31), refmp::mkInt(v.a) }, { refmp::mkStr(VF_KEY32), refmp::mkInt(v.b) }, { refmp::mkStr(VF_KEY33), refmp::mkInt(v.c) }, { refmp::mkStr("s"), refmp::mkStr(v.s) } }); } };
+template <> struct R<WithAttrs> { static Val f(const WithAttrs& v) { return refmp::mkMap({ { refmp::mkStr("id"), refmp::mkInt(v.id) }, { refmp::mkStr("ratio"), refmp::mkF64(v.ratio) }, { refmp::mkStr("weight"), refmp::mkF32(v.weight) }, { refmp::mkStr("label"), refmp::mkStr(v.label) }, { refmp::mkStr("flag"), refmp::mkBool(v.flag) }, { refmp::mkStr("big"), refmp::mkUInt(v.big) }, { refmp::mkStr("node"), refmp::mkF64(v.node) } }); } };
 template <> struct R<EmptyKey> { static Val f(const EmptyKey& v) { return refmp::mkMap({ { refmp::mkStr("a"), refmp::mkInt(v.a) }, { refmp::mkStr(""), refmp::mkStr(v.s) }, { refmp::mkStr("z"), refmp::mkInt(v.z) } }); } };
 template <> struct R<Derived> { static Val f(const Derived& v) {
 	std::vector<std::pair<Val, Val>> m = { { refmp::mkStr("baseId"), refmp::mkInt(v.baseId) }, { refmp::mkStr("baseName"), refmp::mkStr(v.baseName) }, { refmp::mkStr("ratio"), refmp::mkF64(v.ratio) }, { refmp::mkStr("items"), mdl::to_ref(v.items) }, { refmp::mkStr("hasExtra"), refmp::mkBool(v.hasExtra) } };
